@@ -83,7 +83,7 @@ void __wrap_comb_filter_const_sse(opus_val32 *y,opus_val32 *x,int T,int N,opus_v
   if(!inplace){ comb_filter_const_c(yc,(float*)xx,T,N,g10,g11,g12); for(int i=0;i<N;i++){ double S=fabs(yc[i])+fabs(y[i])+fabs(xx[i])+fabs(xx[i-T])+1e-30; if(!(fabs((double)yc[i]-y[i])<=16*FLT_EPSILON*S)){ if(viol_once("combc")) vc_viol("kernel:comb_filter_const_sse","comb_filter_const sample %d: SIMD %.9g vs C %.9g",i,y[i],yc[i]); break; } } } }
 opus_val16 __real_op_pvq_search_sse2(celt_norm *X,int *iy,int K,int N,int arch);
 opus_val16 __wrap_op_pvq_search_sse2(celt_norm *X,int *iy,int K,int N,int arch){ static float X0[1024], X2[1024]; static int iy2[1024]; if(N>1000){ return __real_op_pvq_search_sse2(X,iy,K,N,arch); } memcpy(X0,X,sizeof(float)*N); memcpy(X2,X,sizeof(float)*N); opus_val16 a=__real_op_pvq_search_sse2(X,iy,K,N,arch); opus_val16 b=op_pvq_search_c(X2,iy2,K,N,arch); KCOUNT("op_pvq_search_sse2");
-  long s1=0,s2=0; double xy1=0,yy1=0,xy2=0,yy2=0; for(int j=0;j<N;j++){ s1+=abs(iy[j]); s2+=abs(iy2[j]); xy1+=(double)X0[j]*iy[j]; yy1+=(double)iy[j]*iy[j]; xy2+=(double)X0[j]*iy2[j]; yy2+=(double)iy2[j]*iy2[j]; if((iy[j]>0&&X0[j]<0)||(iy[j]<0&&X0[j]>0)){ if(viol_once("pvqsign")) vc_viol("kernel:op_pvq_search_sse2","pulse %d has the wrong sign (x=%.6g iy=%d)",j,X0[j],iy[j]); } }
+  long s1=0,s2=0; double xy1=0,yy1=0,xy2=0,yy2=0; for(int j=0;j<N;j++){ s1+=labs((long)iy[j]); s2+=labs((long)iy2[j]); xy1+=(double)X0[j]*iy[j]; yy1+=(double)iy[j]*iy[j]; xy2+=(double)X0[j]*iy2[j]; yy2+=(double)iy2[j]*iy2[j]; if((iy[j]>0&&X0[j]<0)||(iy[j]<0&&X0[j]>0)){ if(viol_once("pvqsign")) vc_viol("kernel:op_pvq_search_sse2","pulse %d has the wrong sign (x=%.6g iy=%d)",j,X0[j],iy[j]); } }
   if(s1!=K||s2!=K){ if(viol_once("pvqK")) vc_viol("kernel:op_pvq_search_sse2","pulse count %ld (SIMD) / %ld (C), expected K=%d (N=%d)",s1,s2,K,N); }
   else { double nx=0; for(int j=0;j<N;j++) nx+=(double)X0[j]*X0[j]; nx=sqrt(nx); if(!(nx>1e-6&&nx<8)){ vc_count("pvq_unnormalised_inputs",1); return a; } /* band vectors have norm <= 1 (sub-splits less); for near-silence (norm < 1e-6, where the portable code falls back to a fixed vector) only a valid K-pulse vector is required */
     double o1=yy1>0?xy1/sqrt(yy1):0, o2=yy2>0?xy2/sqrt(yy2):0; double rel=(o2-o1)/(fabs(o2)+1e-30); vc_max("op_pvq_search_objective_relative_difference",rel); { static long tot=0,over=0; tot++; if(rel>1e-3) over++; if(tot>=300000&&over>tot*PVQ_FRAC){ if(viol_once("pvqfrac")) vc_viol("kernel:op_pvq_search_sse2:often-worse","the SSE2 search is worse than the portable search by more than 0.1%% on %ld of %ld calls (limit %.2g of the calls)",over,tot,(double)PVQ_FRAC); } }
